@@ -66,6 +66,20 @@ PROPS = {
         real_vs_stub="real: lock.go, lock_file.go, sema wrapper, Repository; simulated: object store, clock, PID/host table, goroutine choice",
         assumptions=SIM_ASSUME + ["pairwise clock offset <= 6 min, one stall <= 6 min inside a lock operation per process, no retry layer under the lock code"],
     ),
+    "C17": dict(
+        pkg="internal/archiver", test="TestVerifC17", level="exploration", quick_s=45, thorough_s=600,
+        text="the real fileSaver with a single worker (so that its chunker and read-buffer state is reused) saves a sequence of 1-4 simulated files "
+             "(random, periodic and all-zero content; sizes 0, 1, around the 512 KiB minimum chunk size and read buffer, 0.75-3 MiB, rarely 9 MiB of "
+             "zeros) whose Read delivers scheduler-chosen short reads of at most 1, 7, 4096, buffer-1, buffer+1 or 3*buffer bytes; the saved chunks "
+             "concatenate to the file, every chunk but the last lies within [min, max], the node's content list names the chunks in order, and the "
+             "chunk lengths equal those of the chunker library's own streaming Chunker run afresh over the whole content with full reads",
+        note="the simulator's part is the read-pattern and worker-reuse independence; shift resistance under edits is input-driven and not claimed here; "
+             "the blob saver is a stub that records chunks",
+        design_ref="3 / C17",
+        rule="one run = polynomial x file sequence x short-read bound x seeded read sizes; distinct = distinct (case, event-log hash)",
+        real_vs_stub="real: archiver.fileSaver (saveFile, readNextChunk, buffer pool), chunker.BaseChunker; reference: chunker.Chunker; stub: blob saver; simulated: source file",
+        assumptions=SIM_ASSUME,
+    ),
     "C19": dict(
         pkg="cmd/restic", test="TestVerifC19", level="exploration", quick_s=60, thorough_s=900,
         text="generated snapshots of regular files (empty, short, all zeros, zeros with islands of data, multi-chunk, files sharing blobs) are restored "
